@@ -571,8 +571,8 @@ theorem from_update_all_but_mp (u : Update) (c : Nat) :
     simp only [hc, if_false, Option.isSome_map, firstWire_isSome]
     simp [h1, h2]
 
-example : lookup 14 (fromUpdate ⟨[⟨0x80, 14, [0, 2, 1]⟩, ⟨0x40, 1, [0]⟩], []⟩) = none
-    ∧ lookup 1 (fromUpdate ⟨[⟨0x80, 14, [0, 2, 1]⟩, ⟨0x40, 1, [0]⟩], []⟩) = some ⟨.typed, 1, 0x40, [0]⟩ := by
+example : lookup 14 (fromUpdate ⟨[⟨0x80, 14, [0, 2, 1], true⟩, ⟨0x40, 1, [0], true⟩], []⟩) = none
+    ∧ lookup 1 (fromUpdate ⟨[⟨0x80, 14, [0, 2, 1], true⟩, ⟨0x40, 1, [0], true⟩], []⟩) = some ⟨.typed, 1, 0x40, [0]⟩ := by
   decide
 
 private theorem ownedGet_eq (c : Nat) (ws : List Wire) :
@@ -850,7 +850,7 @@ theorem from_update_nexthop (v4u : Bool) (u : Update) :
       exact ⟨rfl, rfl, lookup_del_self 3 _ hs, fun c h => lookup_del_other 3 c _ h⟩
 
 /-- the conventional next hop is the value of the message's first NEXT_HOP attribute -/
-example : conventionalNextHop ⟨[⟨0x40, 1, [0]⟩, ⟨0x40, 3, [10, 255, 0, 101]⟩], [32, 10, 10, 10, 2]⟩
+example : conventionalNextHop ⟨[⟨0x40, 1, [0], true⟩, ⟨0x40, 3, [10, 255, 0, 101], true⟩], [32, 10, 10, 10, 2]⟩
     = some ⟨0, [10, 255, 0, 101]⟩ := by decide
 
 /-- `set_nexthop` returns the next hop it replaces -/
@@ -888,5 +888,86 @@ example :
   intro o ho
   simp at ho
   rcases ho with rfl | rfl | rfl | rfl | rfl | rfl | rfl <;> simp [OpWf, AttrOk] <;> decide
+
+/-! ## sessions: AS number width, ADD-PATH, MP next-hop forms
+
+Every theorem above that speaks of an `Update` (`from_update_all_but_mp`,
+`owned_get_agrees`, `non_transitive_stripped_iff`, `inv_run`, `from_update_nexthop` …)
+is quantified over all `Update` values, so over attributes received in a session
+of either AS number width (`Wire.four`); ADD-PATH only decides which octet
+strings `parseUpdate` accepts.  What follows pins down where the width enters. -/
+
+/-- in a four-octet session the typed reading is the plain one -/
+theorem typedValueW_four (c : Nat) (v : Bytes) : typedValueW true c v = typedValue c v := by
+  simp [typedValueW]
+
+/-- the AS number width of the session matters for AS_PATH and AGGREGATOR only
+(AS4_PATH, AS4_AGGREGATOR and the 16 other kinds are read alike in both) -/
+theorem typedValueW_width_free (four : Bool) (c : Nat) (v : Bytes) (h2 : c ≠ 2) (h7 : c ≠ 7) :
+    typedValueW four c v = typedValue c v := by
+  cases four <;> simp [typedValueW, h2, h7]
+
+/-- an AGGREGATOR a two-octet session accepts has six octets; the owned value is
+the eight-octet form with the AS number zero-extended – a value the four-octet
+rule accepts unchanged, so what `get` returns composes and re-parses -/
+theorem two_octet_aggregator (v w : Bytes) (h : typedValueW false 7 v = some w) :
+    v.length = 6 ∧ w = [0, 0] ++ v ∧ typedValue 7 w = some w := by
+  simp only [typedValueW, Bool.false_eq_true, if_false] at h
+  simp only [show (7 : Nat) ≠ 2 by decide, if_false, if_true] at h
+  split at h
+  · rename_i hl
+    cases h
+    refine ⟨hl, rfl, ?_⟩
+    simp [typedValue, hl]
+  · cases h
+
+/-- every attribute of an accepted UPDATE carries the width of the session it was
+parsed in (`PduParseInfo` inside `EncodedPathAttribute`) -/
+theorem parseWire_width (four : Bool) : ∀ (fuel : Nat) (bs : Bytes) (ws : List Wire),
+    parseWire four fuel bs = some ws → ∀ w ∈ ws, w.four = four
+  | _, [], ws, h => by
+    cases ‹Nat› <;> (simp [parseWire] at h; subst h; simp)
+  | 0, _ :: _, ws, h => by simp [parseWire] at h
+  | fuel + 1, [_], ws, h => by simp [parseWire] at h
+  | fuel + 1, f :: c :: r, ws, h => by
+    simp only [parseWire] at h
+    split at h
+    · rename_i len r' _
+      split at h
+      · rename_i v rest _
+        cases hr : parseWire four fuel rest with
+        | none => simp [hr] at h
+        | some l =>
+          simp only [hr, Option.some.injEq] at h
+          subst h
+          intro w hw
+          rcases List.mem_cons.mp hw with rfl | hw
+          · rfl
+          · exact parseWire_width four fuel rest l hr w hw
+      · cases h
+    · cases h
+
+/-- (AFI, SAFI, next hop length, `NextHop` variant tag) of the forms RFC 4760 3,
+2545 3, 8277, 4364 4.3.2, 4659 3.2.1, 4684, 4761 and 7432 define -/
+def nhForms : List (Nat × Nat × Nat × Nat) :=
+  [(1, 1, 4, 0), (1, 2, 4, 0), (1, 132, 4, 0), (25, 65, 4, 0), (25, 70, 4, 0), (2, 1, 16, 1), (2, 1, 32, 2), (2, 2, 16, 1),
+   (1, 4, 4, 0), (1, 4, 16, 1), (2, 4, 4, 0), (2, 4, 16, 1), (1, 128, 12, 3), (2, 128, 24, 4)]
+
+/-- *"one built from an UPDATE carries that NLRI's next hop"* for every family:
+`mp_next_hop` reads each of the 14 forms as the variant and octets sent
+(with `from_update_nexthop`: that is the next hop the workshop then holds) -/
+theorem mp_next_hop_forms : ∀ q ∈ nhForms, ∀ (raw rest : Bytes), raw.length = q.2.2.1 →
+    parseNextHop q.1 q.2.1 (UInt8.ofNat q.2.2.1 :: (raw ++ rest)) = some ⟨q.2.2.2, raw⟩ := by
+  intro q hq raw rest hl
+  have ht : takeN q.2.2.1 (raw ++ rest) = some (raw, rest) := by rw [← hl]; exact takeN_append _ _
+  simp only [nhForms, List.mem_cons, List.mem_nil_iff, or_false] at hq
+  rcases hq with rfl | rfl | rfl | rfl | rfl | rfl | rfl | rfl | rfl | rfl | rfl | rfl | rfl | rfl <;>
+    (simp only at ht; simp [parseNextHop, ht])
+
+/-- FlowSpec has no next hop (RFC 8955 4): `NextHop::Empty` whatever the length octet -/
+theorem flowspec_next_hop (afi : Nat) (h : afi = 1 ∨ afi = 2) (l : UInt8) (r : Bytes) :
+    parseNextHop afi 133 (l :: r) = some ⟨5, []⟩ := by
+  rcases h with rfl | rfl <;> simp [parseNextHop]
+
 
 end Rc.Thm.C17
